@@ -878,6 +878,26 @@ func (e *Engine) tid(t types.Type) int {
 // implAxioms states, for every concrete type that has a type id and every interface tested dynamically in the unit,
 // whether the type implements the interface (decided statically by go/types).
 func (e *Engine) implAxioms() {
+	// a sentinel error of a package outside the repository (os.ErrNotExist, io.EOF, ...) does not have a dynamic type
+	// declared in the repository: it can never be equal to an error value built from one of the repository's types
+	for _, n := range e.errGlobals {
+		for id, t := range e.tidTypes {
+			base := t
+			if pt, ok := types.Unalias(t).(*types.Pointer); ok {
+				base = pt.Elem()
+			}
+			nm, ok := types.Unalias(base).(*types.Named)
+			if !ok || nm.Obj().Pkg() == nil || e.w.Pkgs[nm.Obj().Pkg().Path()] == nil {
+				continue
+			}
+			k := fmt.Sprintf("sentinel:%s:%d", n, id)
+			if !e.declared[k] {
+				e.declared[k] = true
+				e.axioms = append(e.axioms, not(eq(sx("i_tid", n), fmt.Sprint(id))))
+				e.stubsUsed["sentinel errors of packages outside the repository do not have a dynamic type declared in the repository"] = true
+			}
+		}
+	}
 	for fn, it := range e.ifaceTypes {
 		iface, ok := types.Unalias(it).Underlying().(*types.Interface)
 		if !ok {
